@@ -4,3 +4,8 @@ claim("C20", "exploration", "Hypothesis grammar-based generation + round-trip / 
       "are compared with a reference evaluator, malformed ones must raise. Ports 0..65535 enumerated exhaustively. Exploration: "
       "the input space is unbounded, so the claim is 'held on everything generated'.",
       "Trusts Python's ipaddress for host equality and a 10-line reference range evaluator; transports are observed at asyncio.open_connection.")
+claim("C19", "exploration", "Hypothesis-generated message sequences x segmentations x read/timeout programs under a virtual-time loop, reference delivery model; exhaustive single split points",
+      "The real TCPLinesTransport / UnixLinesTransport / TCPUDSServerTransport.handle_client run over in-memory streams on a virtual-time event loop; "
+      "a reference model predicts the outcome and the instant of every read (message k, TimeoutError, end-of-stream). Every single split point of "
+      "short streams is enumerated. Exploration: sequences/segmentations are unbounded, so the claim is 'held on everything generated'.",
+      "The peer and the kernel are modelled at the asyncio StreamReader boundary; the UDS codec is replaced by a fixed function in the server-loop case.")
